@@ -14,6 +14,8 @@
 (*   CallLater(h, args)   dynamic call of function item h                  *)
 (*   Partial(h, mask)     partial application with ? placeholders -> new   *)
 (*                        function item $pK                                *)
+(*   TypedCall / TypedPartial   the same two actions for the templates     *)
+(*                        whose parameters have declared types             *)
 (*   NamedRef(f, arity)   named function reference f#arity -> new $pK      *)
 (*                                                                         *)
 (* log  = the result of every call under the DEFINITIONAL semantics        *)
@@ -84,14 +86,31 @@ FExpr(id) ==
     [] id = "pvar" -> Call(Var("f"), <<Iv, Hole>>)                           \* $f($i, ?)
     [] id = "pstat" -> SCall("C", "concat", <<Iv, Hole>>)                    \* concat($i, ?)
     [] id = "ref1" -> Ref("abs", 1)                                          \* abs#1 inside the loop
+    (* parameters with DIFFERENT declared types (for partial applications with a non-leading placeholder) *)
+    [] id = "typ2" -> TFun("F", <<"a", "b">>, <<"xs:string", "xs:integer">>, Cat(Var("a"), Op("+", Var("b"), Iv)))
+    [] id = "typd" -> TFun("F", <<"a", "b">>, <<"xs:double", "xs:integer">>,
+                           Cat(Cat(InstOf(Var("a"), "xs:double"), InstOf(Var("b"), "xs:integer")),
+                               Cat(Var("a"), Op("+", Var("b"), Iv))))
+    [] id = "typ3" -> TFun("F", <<"a", "b", "c">>, <<"xs:string", "xs:integer", "xs:string">>,
+                           Cat(Var("a"), Cat(Op("+", Var("b"), Iv), Var("c"))))
+    (* named references to focus-dependent functions, one per item of  source ! name#0 *)
+    [] id = "refpos" -> Ref("position", 0)
+    [] id = "refstr" -> Ref("string", 0)
+    [] id \in {"refslen", "refnlen"} -> Ref("string-length", 0)
+    [] id = "refname" -> Ref("name", 0)
 
-ScopeKind(id) == CASE id = "let1" -> "let" [] id = "fact1" -> "factory" [] OTHER -> "for"
+FocusTpls == {"refpos", "refstr", "refslen", "refnlen", "refname"}
+DocTpls == {"refnlen", "refname"}          \* the items are the element children of the fixed document
+TypedTpls == {"typ2", "typd", "typ3"}
+ScopeKind(id) == CASE id = "let1" -> "let" [] id = "fact1" -> "factory" [] id \in FocusTpls -> "map" [] OTHER -> "for"
 ItemKind(id) == CASE id = "pvar" -> "partial-inline" [] id = "pstat" -> "partial-named"
-                  [] id = "ref1" -> "named" [] OTHER -> "inline"
+                  [] id = "ref1" -> "named" [] id \in FocusTpls -> "named-focus" [] OTHER -> "inline"
 (* the creating scope around an arbitrary inner expression *)
 CreateWith(id, vals, inner) ==
   IF id = "let1"
   THEN For("j", Lits(vals), Let("a", Op("+", Var("j"), Lit(100)), inner))
+  ELSE IF id \in DocTpls THEN Map(Kids(Len(vals)), inner)         \* /r/*[position() le n] ! name#0
+  ELSE IF id \in FocusTpls THEN Map(Lits(vals), inner)            \* (10, 20, 30) ! position#0
   ELSE For("i", Lits(vals), inner)
 CreateExpr(id, vals) == CreateWith(id, vals, FExpr(id))
 
@@ -149,18 +168,31 @@ HandleVal(h) == Eval(HExpr(h, n), Def(tpl, n, ev).env)[1]
 RECURSIVE RootName(_)
 RootName(f) == CASE f.fn = "named" -> f.name [] f.fn = "partial" -> RootName(f.base) [] OTHER -> "inline"
 Tuples(U, k) == [1..k -> U]
-ArgChoices(h) ==
-  LET f == HandleVal(h)
-      k == Arity(f) IN
-  IF tpl \in {"rec", "recr"} /\ h <= n THEN {<<HExpr(h, n), Lit(a)>> : a \in {1, 2}}
+(* typed parameters: literals of the declared type (an integer for xs:double exercises the promotion) *)
+Choices(t) == CASE t = "xs:string" -> {StrLit("x"), StrLit("y")}
+                [] t = "xs:integer" -> {Lit(2), Lit(3)}
+                [] t = "xs:double" -> {DLit(2), Lit(3)}
+                [] OTHER -> {Lit(2), Lit(3)}
+FixedLit(t) == CASE t = "xs:string" -> StrLit("k") [] t = "xs:double" -> DLit(7) [] OTHER -> Lit(7)
+LitUniverse == {StrLit("x"), StrLit("y"), Lit(2), Lit(3), DLit(2)}
+Typed(ts) == \E j \in 1..Len(ts) : ts[j] # AnyType
+TypedTuples(ts) == {a \in [1..Len(ts) -> LitUniverse] : \A j \in 1..Len(ts) : a[j] \in Choices(ts[j])}
+ArgsOf(id, f, hexpr) ==
+  LET k == Arity(f)
+      ts == ParamTypes(f) IN
+  IF id \in {"rec", "recr"} /\ f.fn = "inline" THEN {<<hexpr, Lit(a)>> : a \in {1, 2}}
+  ELSE IF Typed(ts) THEN TypedTuples(ts)
   ELSE IF RootName(f) = "abs" THEN {<<Lit(Neg2)>>, <<Lit(3)>>}
   ELSE IF k = 2 THEN {<<Lit(2), Lit(3)>>, <<Lit(3), Lit(2)>>}
   ELSE {[j \in 1..k |-> Lit(t[j])] : t \in Tuples({2, 3}, k)}
+ArgChoices(h) == ArgsOf(tpl, HandleVal(h), HExpr(h, n))
 Masks(h) ==
-  LET k == Arity(HandleVal(h)) IN
-  {[j \in 1..k |-> IF j = q THEN Hole ELSE Lit(7)] : q \in 1..k}
+  LET k == Arity(HandleVal(h))
+      ts == ParamTypes(HandleVal(h))
+      fx(j) == FixedLit(ts[j]) IN
+  {[j \in 1..k |-> IF j = q THEN Hole ELSE fx(j)] : q \in 1..k}
     \cup (IF TwoHoles /\ k = 2 THEN {<<Hole, Hole>>} ELSE {})
-    \cup (IF TwoHoles /\ k = 3 THEN {<<Hole, Lit(7), Hole>>} ELSE {})
+    \cup (IF TwoHoles /\ k = 3 THEN {<<Hole, fx(2), Hole>>, <<fx(1), Hole, Hole>>} ELSE {})
 Refs == {<<"abs", 1>>, <<"math:pow", 2>>, <<"concat", 3>>}
 
 Init == /\ tpl \in Templates
@@ -175,11 +207,11 @@ Record(e) == /\ ev' = Append(ev, e)
              /\ log' = Def(tpl, n, ev').log
              /\ ilog' = Impl(tpl, n, ev')
              /\ UNCHANGED <<tpl, n, phase>>
-CallLater(h, args) ==
+DoCall(h, args) ==
   /\ phase = "call" /\ Len(ev) < MaxEvents /\ h \in 1..NHandles
   /\ args \in ArgChoices(h)
   /\ Record([a |-> "call", h |-> h, f |-> HExpr(h, n), args |-> args])
-Partial(h, mask) ==
+DoPartial(h, mask) ==
   /\ phase = "call" /\ Len(ev) < MaxEvents - 1 /\ NMakers < MaxMakers /\ tpl \in PartialIn
   /\ h \in 1..NHandles /\ HandleVal(h).fn # "partial" /\ Arity(HandleVal(h)) \in 1..3
   /\ mask \in Masks(h)
@@ -195,11 +227,20 @@ ArgUniverse == UNION {{[j \in 1..k |-> Lit(t[j])] : t \in Tuples({2, 3}, k)} : k
                  \cup {<<Lit(Neg2)>>}
                  \cup {<<HExpr(h, h), Lit(a)>> : h \in 1..MaxN, a \in {1, 2}}
 MaskUniverse == UNION {{[j \in 1..k |-> IF j = q THEN Hole ELSE Lit(7)] : q \in 1..k} : k \in 1..3}
-                  \cup {<<Hole, Hole>>, <<Hole, Lit(7), Hole>>}
+                  \cup {<<Hole, Hole>>, <<Hole, Lit(7), Hole>>, <<Lit(7), Hole, Hole>>}
+(* the templates with declared parameter types draw from their own (larger) universes *)
+TypedArgUniverse == UNION {[1..k -> LitUniverse] : k \in 1..3}
+TypedMaskUniverse == UNION {[1..k -> {Hole, Lit(7), StrLit("k"), DLit(7)}] : k \in 1..3}
+CallLater(h, args) == tpl \notin TypedTpls /\ DoCall(h, args)
+Partial(h, mask) == tpl \notin TypedTpls /\ DoPartial(h, mask)
+TypedCall(h, args) == tpl \in TypedTpls /\ DoCall(h, args)
+TypedPartial(h, mask) == tpl \in TypedTpls /\ DoPartial(h, mask)
 Next == \/ \E i \in 1..MaxN : Create(i)
         \/ EndScope
         \/ \E h \in 1..(MaxN + MaxMakers), args \in ArgUniverse : CallLater(h, args)
         \/ \E h \in 1..(MaxN + MaxMakers), mask \in MaskUniverse : Partial(h, mask)
+        \/ \E h \in 1..(MaxN + MaxMakers), args \in TypedArgUniverse : TypedCall(h, args)
+        \/ \E h \in 1..(MaxN + MaxMakers), mask \in TypedMaskUniverse : TypedPartial(h, mask)
         \/ \E f \in {"abs", "math:pow", "concat"}, k \in 1..3 : NamedRef(f, k)
 Spec == Init /\ [][Next]_vars
 
@@ -219,7 +260,10 @@ HistoryIndependent ==
 
 (* the equivalent DIRECT call of function item h <= n: the function expression is called where it
    is evaluated, inside iteration h of the creating scope *)
-Direct(id, h, args) == CreateWith(id, <<Vals[h]>>, Call(FExpr(id), args))
+(* (for a focus-dependent reference the position matters: iterations 1..h, the h-th result) *)
+Direct(id, h, args) ==
+  IF id \in FocusTpls THEN Index(CreateWith(id, SubSeq(Vals, 1, h), Call(FExpr(id), args)), h)
+  ELSE CreateWith(id, <<Vals[h]>>, Call(FExpr(id), args))
 DirectVal(id, h, args) == Eval(Direct(id, h, args), BindOuter(Outer(id), EmptyEnv))
 DirectImpl(id, h, args) == LET r == EvalI(Direct(id, h, args), OuterI(Outer(id), M0)) IN
                            IF IsPoison(r.v) THEN PoisonOf(r.v) ELSE r.v
@@ -246,17 +290,37 @@ PartialLaw ==
               LET fixed == {q \in 1..Len(f.mask) : ~IsHole(f.mask[q])}
                   c == [fn |-> "inline",
                         params |-> SelectSeq(f.base.params, LAMBDA p : \E q \in 1..Len(f.mask) : f.base.params[q] = p /\ IsHole(f.mask[q])),
+                        types |-> ParamTypes(f),
                         body |-> f.base.body,
                         env |-> [v \in DOMAIN f.base.env \cup {f.base.params[q] : q \in fixed} |->
                                    IF \E q \in fixed : f.base.params[q] = v
-                                   THEN f.mask[CHOOSE q \in fixed : f.base.params[q] = v].val ELSE f.base.env[v]]] IN
+                                   THEN LET q == CHOOSE q \in fixed : f.base.params[q] = v IN
+                                        Convert(f.mask[q].val, f.base.types[q])
+                                   ELSE f.base.env[v]]] IN
               log[LogIdx(j)] = Apply(c, a))
 (* a named function reference is the named function *)
 NamedLaw ==
   \A j \in CallIdx :
      LET f == Eval(ev[j].f, Def(tpl, n, Makers(j)).env)[1] IN
-     f.fn = "named" => log[LogIdx(j)] = ApplyNamed(f.name, EvalArgs(ev[j].args, EmptyEnv))
+     (f.fn = "named" /\ ~Has(f, "focus")) => log[LogIdx(j)] = ApplyNamed(f.name, EvalArgs(ev[j].args, EmptyEnv))
+(* a reference to a focus-dependent function binds the focus of ITS evaluation: item h of the source,
+   position h, size n; calling it later is the direct call made there *)
+FocusLaw ==
+  (n >= 1 /\ tpl \in FocusTpls) =>
+     LET src == IF tpl \in DocTpls THEN SubSeq(DocKids, 1, n) ELSE [j \in 1..n |-> I(Vals[j])] IN
+     \A h \in 1..n : LET f == Env0(tpl, n).fs[h] IN
+        /\ f.focus = [item |-> <<src[h]>>, pos |-> <<I(h)>>, last |-> <<I(n)>>]
+        /\ Apply(f, <<>>) = ApplyFocus(f.name, f.focus)
+(* a declared parameter type converts the argument at ITS position, in a partial application too *)
+TypedLaw ==
+  \A j \in CallIdx :
+     LET f == Eval(ev[j].f, Def(tpl, n, Makers(j)).env)[1]
+         a == EvalArgs(ev[j].args, EmptyEnv) IN
+     (tpl \in TypedTpls /\ f.fn = "partial") =>
+        LET full == Fill(f.mask, a) IN
+        log[LogIdx(j)] = Eval(f.base.body, Bind(f.base.env, f.base.params, ConvertAll(full, f.base.types)))
 Laws == SameCallSameResult /\ HistoryIndependent /\ ClosuresIndependent /\ Captures /\ PartialLaw /\ NamedLaw
+          /\ FocusLaw /\ TypedLaw
 
 (* the implementation-shaped model: TLC must REFUTE this (expected counterexample) *)
 AsImplementedAgrees == ilog = log
@@ -264,17 +328,17 @@ AsImplementedAgrees == ilog = log
 (* the templates, printed once for the binding (dumb AST -> text rendering) *)
 Collides(id) == id \in {"nestx", "nestxr", "rec", "recr"}    \* a nested callee binds a name the caller reads
 DirectArgs(id, h) ==
-  LET f == Env0(id, h).fs[h]
-      k == Arity(f) IN
+  LET f == Env0(id, h).fs[h] IN
   IF id \in {"rec", "recr"} THEN {}
-  ELSE IF RootName(f) = "abs" THEN {<<Lit(Neg2)>>, <<Lit(3)>>}
-  ELSE IF k = 2 THEN {<<Lit(2), Lit(3)>>, <<Lit(3), Lit(2)>>, <<Lit(7), Lit(2)>>, <<Lit(2), Lit(7)>>}
-  ELSE {[j \in 1..k |-> Lit(t[j])] : t \in Tuples({2, 3}, k)}
+  ELSE IF ~Typed(ParamTypes(f)) /\ Arity(f) = 2 /\ RootName(f) # "abs"
+       THEN {<<Lit(2), Lit(3)>>, <<Lit(3), Lit(2)>>, <<Lit(7), Lit(2)>>, <<Lit(2), Lit(7)>>}
+  ELSE ArgsOf(id, f, Nil)
 TemplateTable ==
   [id \in Templates |->
      [outer |-> Outer(id), scope |-> ScopeKind(id), kind |-> ItemKind(id), collision |-> Collides(id),
+      doc |-> id \in DocTpls, typed |-> id \in TypedTpls,
       create |-> [k \in 1..MaxN |-> CreateExpr(id, SubSeq(Vals, 1, k))],
-      direct |-> [h \in 1..MaxN |-> CreateWith(id, <<Vals[h]>>, Call(FExpr(id), <<Var("__ARGS__")>>))],
+      direct |-> [h \in 1..MaxN |-> Direct(id, h, <<Var("__ARGS__")>>)],
       directs |-> {[h |-> h, args |-> a, val |-> DirectVal(id, h, a), ival |-> DirectImpl(id, h, a)] :
                      h \in 1..MaxN, a \in UNION {DirectArgs(id, q) : q \in 1..MaxN}}]]
 ASSUME PrintT(<<"templates", TemplateTable>>)
